@@ -101,6 +101,8 @@ func tptOf(a ma.Multiaddr) string {
 		return "ws"
 	case strings.Contains(s, "/tcp/"):
 		return "tcp"
+	case strings.Contains(s, "/udp/"):
+		return "webrtc" // the WebRTC listener presents the bare UDP address of the candidate
 	}
 	return "?"
 }
@@ -149,6 +151,8 @@ type monitor struct {
 	events       []swEvent
 	connected    int
 	disconnected int
+	upgradedOK   int // InterceptUpgraded calls answered "allow"
+	stragglers   int // connections announced after the rule set had moved on (not decided)
 	viol         []swViolation
 	wake         chan struct{}
 }
@@ -192,6 +196,9 @@ func (m *monitor) onGate(gate string, dir string, p peer.ID, a ma.Multiaddr, con
 		e.Addr = a.String()
 	}
 	m.logLocked(e)
+	if gate == "InterceptUpgraded" && allow {
+		m.upgradedOK++
+	}
 	m.mu.Unlock()
 	m.poke()
 }
@@ -226,6 +233,19 @@ func (m *monitor) onConn(kind string, c network.Conn) {
 	m.logLocked(e)
 	if kind == "connected" {
 		m.connected++
+	}
+	// The rules in force for this connection are those of the epoch in which it passed its last gate
+	// (InterceptUpgraded, found by connection id). If the rule set was changed between that gate and
+	// this announcement the attempt was still in flight during the change: not decided.
+	for i := len(m.events) - 1; i >= 0; i-- {
+		ev := &m.events[i]
+		if ev.Kind == "gate" && ev.Gate == "InterceptUpgraded" && ev.ConnID == c.ID() {
+			if ev.Epoch != m.epoch {
+				m.stragglers++
+				return
+			}
+			break
+		}
 	}
 	// "no connection to or from a matching remote is ever admitted to the swarm"
 	if b, why := m.blockedLocked(p, ip); b {
@@ -880,7 +900,8 @@ func runScenario(sc scenario) (out swOutcome) {
 					return false
 				}
 				h.mon.mu.Lock()
-				eq := h.mon.connected == h.mon.disconnected
+				// every connection that passed its last gate has been announced, every announced one is gone
+				eq := h.mon.connected == h.mon.disconnected && h.mon.connected >= h.mon.upgradedOK
 				h.mon.mu.Unlock()
 				if !eq {
 					return false
@@ -974,8 +995,15 @@ func runScenario(sc scenario) (out swOutcome) {
 				}
 				s := target.mon.summary(lepoch)
 				listenerDecided := len(s.refusedBy) > 0 || len(s.admitted) > 0
-				if !returned && len(s.refusedBy) > 0 {
-					cancel()
+				// A WebRTC listener that refuses at accept never answers; its dialer would wait for the ICE
+				// timeout. Nothing can complete on either side after that refusal, so cancelling is safe.
+				// No other dial is ever cancelled (a cancelled dial could still complete in the background).
+				if !returned && st.Tpt == "webrtc" {
+					for _, g := range s.refusedBy {
+						if strings.HasPrefix(g, "InterceptAccept") {
+							cancel()
+						}
+					}
 				}
 				return returned && (dialErr != nil || listenerDecided)
 			})
@@ -1002,6 +1030,7 @@ func runScenario(sc scenario) (out swOutcome) {
 			}
 			// accounting (never part of a verdict)
 			gs := G.mon.summary(epochs[0])
+			own := gs          // G's own decisions only
 			if R.real != nil { // the second gating host's refusals count as well
 				rs := R.mon.summary(epochs[st.Remote])
 				gs.refusedBy = append(gs.refusedBy, rs.refusedBy...)
@@ -1038,7 +1067,7 @@ func runScenario(sc scenario) (out swOutcome) {
 				}
 			}
 			// secondary evidence for "refused before any transport dial": the remote listener saw nothing
-			if st.Dir == "out" && len(gs.refusedBy) > 0 && len(gs.admitted) == 0 {
+			if st.Dir == "out" && len(own.refusedBy) > 0 && len(own.admitted) == 0 && own.dials == 0 {
 				reached := false
 				R.mon.mu.Lock()
 				for _, e := range R.mon.events {
@@ -1055,6 +1084,15 @@ func runScenario(sc scenario) (out swOutcome) {
 					G.mon.mu.Unlock()
 				} else {
 					out.counts.add("remote_listener_saw_nothing", 1)
+				}
+			}
+			for _, h := range hosts {
+				h.mon.mu.Lock()
+				n := h.mon.stragglers
+				h.mon.mu.Unlock()
+				if n > 0 {
+					out.inconclusive = fmt.Sprintf("step %d %s: host %s announced a connection after the rule set had changed", si, st, h.name)
+					return
 				}
 			}
 			if !settle() {
